@@ -319,6 +319,13 @@ class Evaluator:
     def st_Pass(self, st, fr):
         return FALL
 
+    def st_Break(self, st, fr):
+        # only reached when a loop body is evaluated as a fragment (transfer-function comparison)
+        return T.raise_('<break>')
+
+    def st_Continue(self, st, fr):
+        return T.raise_('<continue>')
+
     def st_Import(self, st, fr):
         return FALL
 
